@@ -712,22 +712,38 @@ static int wr_line (
 	va_list argptr)
 {
 	char buffer[ILL_namebufsize];
+	char *big = 0;
 	int rval = 0;
+	int n;
+	va_list again;
 
-	rval = vsnprintf (buffer, sizeof (buffer), format, argptr);
-	if (rval > 0)
+	va_copy (again, argptr);
+	n = vsnprintf (buffer, sizeof (buffer), format, argptr);
+	rval = n;
+	if (n > 0)
 	{
-                /* Bico -- OPTERON DEBUGGING 051005  */
-                /* Replaced ILLstring_report by the explicit call to */
-                /* fprintf.                                          */
-                /*rval = fprintf (lp->reporter.dest, buffer);
-                if (rval < 0) rval = 1;
-                else          rval = 0;
-								*/
-		/* daespino -- BACK to ILLstring_report to support compresed files 090909
-		 * */
-		rval = ILLstring_report(buffer, &lp->reporter);
+		if ((size_t) n >= sizeof (buffer))
+		{
+			/* the line does not fit (a rational has no length limit): format it
+			 * again into a block of the length it needs instead of writing it cut */
+			big = (char *) malloc ((size_t) n + 1);
+			if (big == 0)
+			{
+				rval = 1;
+			}
+			else
+			{
+				vsnprintf (big, (size_t) n + 1, format, again);
+				rval = ILLstring_report (big, &lp->reporter);
+				free (big);
+			}
+		}
+		else
+		{
+			rval = ILLstring_report (buffer, &lp->reporter);
+		}
 	}
+	va_end (again);
 	return rval;
 }
 
